@@ -321,8 +321,8 @@ package main
 //@        len(gtHost) == len(old(gtHost)) + 1 && gtProto[len(old(gtProto))] == "tcp" && gtPort[len(old(gtPort))] == hopPortE[len(old(hopPortE))] && gtTid[len(old(gtTid))] == ctId[len(old(ctId))]
 //@   ensures tcp-registers-resolved-host: rawMessage.Message.request != nil && !isNil(rawMessage.TcpConn) && len(hopOk) > len(old(hopOk)) && hopOk[len(old(hopOk))] && len(ctOk) > len(old(ctOk)) && ctOk[len(old(ctOk))]
 //@        && knownHost(p.resolver.hostIPs, stripBr(hopHostE[len(old(hopHostE))])) ==> gtHost[len(old(gtHost))] == knownIp(p.resolver.hostIPs, stripBr(hopHostE[len(old(hopHostE))]))
-//@   ensures tcp-registers-stamped-hop: rawMessage.Message.request != nil && rawMessage.ReceivedSupport && !isNil(rawMessage.TcpConn) && len(hopSeenStamps) > len(old(hopSeenStamps)) ==>
-//@        hopSeenStamps[len(old(hopSeenStamps))] == len(old(stamps)) + 1
+//@   ensures tcp-registers-stamped-hop: rawMessage.Message.request != nil && rawMessage.ReceivedSupport && !isNil(rawMessage.TcpConn) && len(stampSeenHops) > len(old(stampSeenHops)) ==>
+//@        stampSeenHops[len(old(stampSeenHops))] == len(old(hopOk))
 //@   ensures tcp-registers-conn: rawMessage.Message.request != nil && !isNil(rawMessage.TcpConn) && len(hopOk) > len(old(hopOk)) && hopOk[len(old(hopOk))] && len(ctOk) > len(old(ctOk)) && ctOk[len(old(ctOk))] ==>
 //@        gtOk[len(old(gtOk))] && isType(cast(gtRes[len(old(gtRes))], "*FailOverClientTransport").primary, "*TCPClientTransport")
 //@        && asRef(cast(gtRes[len(old(gtRes))], "*FailOverClientTransport").primary, "*TCPClientTransport").conn == rawMessage.TcpConn
@@ -583,7 +583,6 @@ package main
 
 //@ func (*Proxy).getNextReponseHop
 //@   props C02 C07 C12
-//@   event hopSeenStamps: len(stamps)
 //@   revent hopOk: err == nil
 //@   revent hopHostE: host
 //@   revent hopPortE: port
@@ -744,6 +743,7 @@ package main
 // ---- received / rport stamping (C07) ----
 
 //@ func (*Message).SetReceived
+//@   event stampSeenHops: len(hopOk)
 //@   props C07
 //@   event stamps: m
 //@   event stampAddr: peerAddr
